@@ -35,20 +35,20 @@ type tierCfg struct {
 }
 
 type harnessReg struct {
-	Property    string            `json:"property"`
-	Reach       []string          `json:"reach"`
+	Property    string              `json:"property"`
+	Reach       []string            `json:"reach"`
 	ReachTier   map[string][]string `json:"reach_tier"`
-	Float       string            `json:"float"`
-	MaxAlloc    int64             `json:"max_alloc"`
-	AllocCut    bool              `json:"alloc_cut"`
-	NoWitness   bool              `json:"no_witness_replay"`
-	Quick       tierCfg           `json:"quick"`
-	Thorough    tierCfg           `json:"thorough"`
-	Bounds      map[string]string `json:"bounds"` // tier -> text
-	Encodes     []string          `json:"encodes"`
-	Outside     []string          `json:"outside"`
-	Assumptions []string          `json:"assumptions"`
-	What        string            `json:"what"`
+	Float       string              `json:"float"`
+	MaxAlloc    int64               `json:"max_alloc"`
+	AllocCut    bool                `json:"alloc_cut"`
+	NoWitness   bool                `json:"no_witness_replay"`
+	Quick       tierCfg             `json:"quick"`
+	Thorough    tierCfg             `json:"thorough"`
+	Bounds      map[string]string   `json:"bounds"` // tier -> text
+	Encodes     []string            `json:"encodes"`
+	Outside     []string            `json:"outside"`
+	Assumptions []string            `json:"assumptions"`
+	What        string              `json:"what"`
 }
 
 type registry struct {
@@ -354,7 +354,7 @@ func cmdCheck(args []string) int {
 				tier = 1
 			}
 			cfg := symgo.HarnessConfig{MaxDecisions: tc.MaxDecisions, MaxSteps: tc.MaxSteps, MaxPaths: tc.MaxPaths, ConcretizeK: tc.ConcretizeK,
-				SolverMs: tc.SolverMs, Workers: tc.Workers, SampleEvery: 1, FloatMode: fm, Known: known, Tier: tier, Seed: seed, MaxAlloc: h.MaxAlloc, AllocCut: h.AllocCut}
+				SolverMs: tc.SolverMs, Workers: tc.Workers, SampleEvery: 1, FloatMode: fm, Known: known, Tier: tier, Seed: seed, MaxAlloc: h.MaxAlloc, AllocCut: h.AllocCut, StopAfterViolations: 4}
 			o.rep, o.err = prog.RunHarness(n, cfg, symgo.SolverZ3, *verbose)
 			if o.err == nil {
 				fmt.Printf("[%s] %s: paths=%d ends=%v obligations=%d/%d queries=%d solver=%.1fs wall=%.1fs\n", *prop, n, o.rep.Paths, o.rep.Ends, o.rep.Discharged, o.rep.Obligations, o.rep.SolverQueries, o.rep.SolverTime.Seconds(), o.rep.Wall.Seconds())
